@@ -327,6 +327,7 @@ pub fn fmt_ok() -> (r: FmtResult) {{ FmtResult {{ ok: true }} }}
 // what `{{}}` prints for a value of the type: one piece of the trace
 pub trait Shown {{ spec fn piece(&self) -> Piece; }}
 impl Shown for Sc {{ open spec fn piece(&self) -> Piece {{ Piece::Val(self@) }} }}
+impl<'a, T: Shown> Shown for &'a T {{ open spec fn piece(&self) -> Piece {{ (**self).piece() }} }}
 impl Shown for u64 {{ open spec fn piece(&self) -> Piece {{ Piece::Sym(*self) }} }}
 impl Fmt {{
     pub uninterp spec fn trace(&self) -> Seq<Piece>;
@@ -346,7 +347,7 @@ impl Strs {
 }
 impl Joined { pub uninterp spec fn src(&self) -> Mx; pub uninterp spec fn sep(&self) -> u64; }
 impl Shown for Joined { open spec fn piece(&self) -> Piece { Piece::Joined(self.src(), self.sep()) } }
-impl<'a> Shown for &'a Mx { open spec fn piece(&self) -> Piece { Piece::Mat(**self) } }
+impl Shown for Mx { open spec fn piece(&self) -> Piece { Piece::Mat(*self) } }
 impl Mx {
     #[verifier::external_body] pub fn shape(&self) -> (r: (usize, usize)) ensures r.0 == self.nrows(), r.1 == self.ncols() { unimplemented!() }
     #[verifier::external_body] pub fn lin_ref(&self, k: usize) -> (r: &Sc) requires k < self.nrows() * self.ncols() ensures r@ == self.at(k as int % self.nrows(), k as int / self.nrows()) { unimplemented!() }
